@@ -1022,8 +1022,18 @@ THEOREMS = ['Props.C05.' + t for t in ['column_boundaries_correct', 'row_slicing
                                     'field_beyond_row_is_zero', 'line_terminator_ignored', 'row_format_decidable',
                                     'rows_keyed_by_printed_index', 'rows_in_index_order', 'autough2_row_split_correct',
                                     'autough2_adjacent_numbers_merge', 'addressing_agrees', 'reversed_key_row']]
-LEVEL_TEXT = ''
-LEVEL_NOTE = ''
+LEVEL_TEXT = ('Proof: 13 Lean theorems about the row layer of the reader and listingtable: parse_table_line infers exactly the field starts from a line of '
+              'right-aligned number fields (column_boundaries_correct; its side conditions are decided on the longest line of every table by a '
+              'procedure proved sound, row_format_decidable); read_table_line_TOUGH2 never raises, cell k is fortran_float of columns [b_k,b_k+1) and '
+              'blank / missing trailing cells are 0.0 (row_slicing_correct + field lemmas re-using C16); the AUTOUGH2 whitespace split returns exactly '
+              'the printed numbers and merges numbers printed without a blank; rows are kept one per printed index in index order; row-index, '
+              'row-name and column-name addressing agree and a reversed connection name gives the negated row. No sorry. Partial: the composition '
+              'for whole files (cells_equal_printed) and skip-table independence are not proved; they are covered by the executable whole-file Lean model of '
+              't2listing (all six simulators) compared with the real reader cell for cell (bit-equal doubles) on all 37 shipped files at every result '
+              'time and on value-perturbed copies, and by an independent tokenizer oracle on the printed rows.')
+LEVEL_NOTE = ('Trusted: Lean kernel (+propext, Classical.choice, Quot.sound); the hand-written models (tied by the correspondence, not proved equal to the Python); '
+              'decimal->double by CPython (A-float); ASCII text. A perturbed copy that the reader refuses at open (its own Exception / KeyError) exposes no '
+              'table: counted as rejected, and the model must refuse it with the same exception class.')
 TECHNIQUE = 'Lean 4 proof over an executable model of the listing reader + differential correspondence with the real reader + independent tokenizer oracle'
 ASSUMPTIONS = [
     'ASCII/latin-1 listings; a line is what a binary readline() returns',
@@ -1063,7 +1073,9 @@ def build_jobs(ctx, rng, n_perturb, skips_per_file, indices, dump):
         names = [t.name for t in sc.blocks[0]] if sc.blocks else []
         for vs in variant_specs(ctx, rel, rng, n_perturb):
             sk = skip_sets(names, rng, skips_per_file if vs['kind'] == 'orig' else min(1, skips_per_file) if skips_per_file != 'all' else 2)
-            jobs.append(dict(rel=rel, family=family, vspec=vs, tmp=str(ctx.tmp), indices=indices, skips=sk,
+            # the shipped files themselves: every result time, so that every printed row of every file goes through the
+            # oracle and through the model; variants: the chosen indices
+            jobs.append(dict(rel=rel, family=family, vspec=vs, tmp=str(ctx.tmp), indices='all' if vs['kind'] == 'orig' else indices, skips=sk,
                              seed=rng.randrange(1 << 30), dump=dump, addr_samples=12))
     return jobs
 
